@@ -32,6 +32,7 @@ TECH = {
     "C19": "typestate (private fields) + who-may-construct over all MIR aggregates/ctor uses + dominance of range checks",
     "C20": "typestate + who-may-construct + dominance/exclusion on MIR + argument provenance of the signature check",
     "C21": "call-graph reachability from parser entry points + panic-source enumeration against a reviewed table + constant agreement",
+    "C22": "merge tables read off the MIR (path summaries + effects through &mut self), laws checked exhaustively over small abstract carriers (orderings / equality classes / nested interpreted lattices); structural delegation rules for the keyed collections",
     "C24": "SQL shape lints over string constants reaching prepare() + bind-argument provenance on MIR",
     "C25": "path summaries of the loop-free decision functions (MIR paths with locals resolved along the path) checked against decision tables over all orderings of the compared pairs + EXCL/DOM of the recording and hand-out sites + WHO",
     "C26": "panic-source enumeration against a reviewed table + char-boundary class dataflow for str range bounds",
@@ -49,7 +50,6 @@ def claim_text(pid):
 
 
 NOT_APPLICABLE = {
-    "C22": "associativity/commutativity/idempotence are equations over all values; needs algebraic proof or a solver, not a structural rule",
     "C23": "correctness of topological sort/prune/merge over every DAG is a graph-algorithm property of runtime data",
     "C30": "equality of a diff with the decode of its free-form text encoding over all diffs; encoder/decoder are not table driven",
 }
